@@ -178,8 +178,8 @@ theorem InvB_iff (ns : Bool) (t : T) : InvB ns t = true ↔ Inv ns t := by
 
 /-- closure, one operation: from a tree satisfying the invariant (and the operation's
     precondition: only pruning has one), a SUCCESSFUL edit yields a tree satisfying it, with the
-    promise updated by `promised` (dropped by re-rooting a rooted tree at another node, and by an applied
-    NNI on a non-binary tree; restored by RemoveSingleNodes) -/
+    promise updated by `promised` (dropped exactly by re-rooting a rooted tree at another node;
+    restored by RemoveSingleNodes) -/
 theorem op_ok (ns : Bool) (op : EditOp) (t t' : T) (h : Inv ns t) (hp : opPre ns op t = true)
     (ho : applyOp op t = .ok t') : Inv (promised ns op t) t' := by
   obtain ⟨hu, hns⟩ := h
@@ -289,8 +289,7 @@ theorem op_ok (ns : Bool) (op : EditOp) (t t' : T) (h : Inv ns t) (hp : opPre ns
     by_cases he : (Gotree.C17.rearrangements t).isEmpty = true
     · simp only [he, if_true, Gotree.C05.Res.ok.injEq] at ho
       subst ho
-      exact ⟨hu, fun hpr => by
-        simp only [promised, Bool.and_eq_true] at hpr; exact hns hpr.1⟩
+      exact ⟨hu, hns⟩
     · simp only [he, Bool.false_eq_true, if_false] at ho
       cases hr : (Gotree.C17.rearrangements t)[k % (Gotree.C17.rearrangements t).length]? with
       | none => simp [hr] at ho
@@ -308,15 +307,12 @@ theorem op_ok (ns : Bool) (op : EditOp) (t t' : T) (h : Inv ns t) (hp : opPre ns
             cases ha'
             simp only [if_true, hu', Gotree.C05.Res.ok.injEq] at ho
             subst ho
-            exact ⟨hu, fun hpr => by
-              simp only [promised, Bool.and_eq_true] at hpr; exact hns hpr.1⟩
+            exact ⟨hu, hns⟩
           | false =>
             simp only [Bool.false_eq_true, if_false, Gotree.C05.Res.ok.injEq] at ho
             subst ho
-            obtain ⟨hb, _, _, hnd⟩ := Gotree.C17.apply_wf t _ r hp hmem ha
-            refine ⟨hnd hu, fun hpr => ?_⟩
-            simp only [promised, Bool.and_eq_true, Bool.or_eq_true, Bool.false_eq_true, false_or] at hpr
-            exact binary_noSingle _ (hb hpr.2)
+            obtain ⟨_, _, _, hnd⟩ := Gotree.C17.apply_wf t _ r hp hmem ha
+            exact ⟨hnd hu, fun hpr => Gotree.C17.apply_noSingle_tree t _ r hp hmem ha (hns hpr)⟩
   | collapseDepth mn mx rr rt =>
     simp only [opPre, decide_eq_true_eq] at hp
     simp only [applyOp, Gotree.C07.collapseDepth, Gotree.C07.depth_never_errs t, Bool.false_eq_true, if_false,
@@ -443,6 +439,19 @@ theorem op_ok (ns : Bool) (op : EditOp) (t t' : T) (h : Inv ns t) (hp : opPre ns
       · simp only [Gotree.C05.Res.ok.injEq] at ho
         subst ho
         exact ⟨hu, hns⟩
+
+/-- Orientation is not lost by treating trees as values: in C05's model with explicit orientation
+    flags (`OT`: every branch says whether its `left` is the end nearer the root), `t.root = n`
+    followed by `ReorderEdges(n, nil, nil)` — on a correctly oriented heap — yields exactly the
+    correctly oriented heap of the tree value the history continues with, every branch pointing
+    away from the new root (re-export of C05's `reroot_oriented` for the `reroot` step of `applyOp`). -/
+theorem reroot_step_oriented (t t' : T) (p : List Nat) (h : applyOp (.reroot p) t = .ok t') :
+    (Gotree.C05.rerootO t p).1 = Gotree.C05.orient t' ∧ (∀ f ∈ (Gotree.C05.rerootO t p).1.flags, f = true) ∧
+      (Gotree.C05.rerootO t p).1.wrong = [] := by
+  have ht := Gotree.C03.reroot_ok (by simpa [applyOp] using h)
+  subst ht
+  obtain ⟨h1, _, h3, h4⟩ := Gotree.C05.P.reroot_oriented t p
+  exact ⟨h1, h3, h4⟩
 
 /-- ★ every finite history of successful edits, from any tree with unique tip names (single-child
     nodes allowed unless `ns₀` promises their absence), ends in a tree that satisfies the invariant
